@@ -94,7 +94,49 @@ def m_ok_or(I, st, fr, callee, args, dty, dest, ret_bb):
     return mk_result(ok=get_field(I, st, v, 'Some', 0), err=error('RoleNotFound'), discr=nd)
 def m_opaque_str(I, st, fr, callee, args, dty, dest, ret_bb): return Obj('str', s=None, pieces=['<opaque>'])
 
+# ---- generic Vec / iterator plumbing (so that harmless restructurings of the loops stay executable)
+def m_collect_refs(I, st, fr, callee, args, dty, dest, ret_bb):
+    it = mat(I, st, args[0]); vec = deref(I, st, it.d['vec'])
+    return Obj('vec', elems=[st.alloc(Ref(c)) for c in vec.d['elems'][it.d['pos']:]])
+def m_vec_into_iter_val(I, st, fr, callee, args, dty, dest, ret_bb):
+    return Obj('iter', vec=Ref(st.alloc(mat(I, st, args[0]))), pos=0, byval=True)
+def m_into_iter_next_val(I, st, fr, callee, args, dty, dest, ret_bb):
+    it = deref(I, st, args[0]); vec = deref(I, st, it.d['vec']); elems = vec.d['elems']
+    if it.d['pos'] < len(elems):
+        r = mk_some(st.heap[elems[it.d['pos']]]); it.d['pos'] += 1; return r
+    return mk_none()
+def m_dedup_by(I, st, fr, callee, args, dty, dest, ret_bb):
+    st.frames.append(ModelFrame(h_dedup_by, {'vec': args[0], 'i': 1, 'kept': None, 'clos': st.alloc(mat(I, st, args[1]))}, dest, ret_bb)); return PUSHED
+def h_dedup_by(I, st, fr):
+    """Vec::dedup_by: drop an element when same_bucket(element, last kept element) is true (std contract)"""
+    d = fr.data; vec = deref(I, st, d['vec'])
+    if d['kept'] is None: d['kept'] = list(vec.d['elems'][:1]); d['all'] = list(vec.d['elems'])
+    if 'ret' in d:
+        r = I.as_z3(st, d.pop('ret')); cur = d['all'][d['i'] - 1]
+        out = []
+        s_drop = st.clone(); s_drop.pc.append(r)
+        if I.feasible(s_drop): out.append(s_drop)
+        st.pc.append(z3.Not(r))
+        if I.feasible(st):
+            d['kept'] = d['kept'] + [cur]; out.append(st)
+        return out
+    if d['i'] >= len(d['all']):
+        vec.d['elems'] = list(d['kept']); I.do_return(st, unit()); return [st]
+    cur = d['all'][d['i']]; d['i'] += 1
+    fn = I.resolve_closure(st.heap[d['clos']].ty)
+    if fn is None: raise Stuck('dedup_by closure')
+    I.push_call(st, fn, [Ref(d['clos']), Ref(cur), Ref(d['kept'][-1])], None, None); return [st]
+def m_hex_eq(I, st, fr, callee, args, dty, dest, ret_bb):
+    return kid_of(I, st, args[0]) == kid_of(I, st, args[1])
+
 C01_MODELS = [
+    (R(r'^<std::slice::Iter<.*> as Iterator>::collect::<Vec<&'), m_collect_refs),
+    (R(r'^<Vec<&schema::Signature> as IntoIterator>::into_iter$'), m_vec_into_iter_val),
+    (R(r'^<std::vec::IntoIter<&schema::Signature> as Iterator>::next$'), m_into_iter_next_val),
+    (R(r'^Vec::<.*>::dedup_by::<'), m_dedup_by),
+    (R(r'^<Decoded<Hex> as PartialEq>::(eq)$'), m_hex_eq),
+    (R(r'^core::slice::<impl \[schema::Signature\]>::iter$'), m_slice_iter),
+    (R(r'^<Vec<schema::Signature> as Deref>::deref$'), m_identity),
     (R(r'^Vec::<u8>::new$'), m_vec_new),
     (R(r'^CanonicalFormatter::new$'), m_canon_new),
     (R(r'^serde_json::Serializer::<.*>::with_formatter$'), m_with_formatter),
